@@ -56,42 +56,76 @@ REG.fn(B, "bellman_ford", prop="C11", ret="Result[opaque]", raises_ok=True,
               3: LoopSpec(index="q3", invariants=COMMON + [
                   "forall(k, implies(0 <= k < q3, not " + RELAX.format("k") + "), trig=edges[k])"])})
 
-# ------------------------------------------------------------------ dijkstra: returned paths are real paths
+# ------------------------------------------------------------------ dijkstra: real paths AND the optimality certificate
 D = "solvor/dijkstra.py"
-REG.ghostfn("Edge", ["U<S>", "U<S>", "real"], "bool")  # Edge(u, v, w): neighbors(u) offers (v, w)
+REG.ghostfn("Edge", ["U<S>", "U<S>", "real"], "bool")  # Edge(u, v, w): neighbors(u) offers (v, w)   (used by astar)
 REG.callback("dnbr", ["U<S>"], "list[tuple[U<S>,real]]", pure=False,
              post="forall(i, implies(0 <= i < len(result), Edge(a0, result[i][0], result[i][1]) and result[i][1] >= 0), trig=result[i])")
 REG.callback("isgoal", ["U<S>"], "bool", pure=False)
+# for the certificate the graph must be a function of the node: N(u) = neighbors(u) (pure), goalp = the goal test (pure)
+REG.callback("N", ["U<S>"], "list[tuple[U<S>,real]]", pure=True)
+REG.callback("goalp", ["U<S>"], "bool", pure=True)
+RELAXED = "forall(i, implies(0 <= i < len(N({u})), has(g, N({u})[i][0]) and get(g, N({u})[i][0]) <= get(g, {u}) + N({u})[i][1]), trig=N({u})[i])"
+DJ = [
+    "has(g, start)", "get(g, start) == 0", "not has(parent, start)",
+    "forall(v, implies(has(g, v), get(g, v) >= 0 and get(g, v) < inf()), sorts={'v': 'U<S>'}, trig=has(g, v))",
+    "forall(v, implies(has(g, v) and v != start, has(parent, v)), sorts={'v': 'U<S>'}, trig=has(g, v))",
+    # parent pointers: a closed, labelled node one of whose offered edges (ghost index pi[v]) explains the label exactly
+    "forall(v, implies(has(parent, v), has(g, v) and has(g, get(parent, v)) and has(closed, get(parent, v)) and 0 <= pi[v] < len(N(get(parent, v))) and N(get(parent, v))[pi[v]][0] == v and get(g, v) == get(g, get(parent, v)) + N(get(parent, v))[pi[v]][1]), sorts={'v': 'U<S>'}, trig=has(parent, v))",
+    "forall(v, implies(has(closed, v), has(g, v) and not goalp(v)), sorts={'v': 'U<S>'}, trig=has(closed, v))",
+    # heap entries: labelled nodes, never cheaper than the node's current label, never cheaper than a closed node
+    "forall(j, implies(0 <= j < len(heap), has(g, heap[j][2]) and heap[j][0] >= get(g, heap[j][2])), trig=heap[j])",
+    "forall(u, j, implies(has(closed, u) and 0 <= j < len(heap), get(g, u) <= heap[j][0]), sorts={'u': 'U<S>'}, trig=((has(closed, u), heap[j]),))",
+    # every open labelled node has an entry carrying its current label (ghost index map `where`)
+    "forall(v, implies(has(g, v) and not has(closed, v), 0 <= where[v] < len(heap) and heap[where[v]][2] == v and heap[where[v]][0] == get(g, v)), sorts={'v': 'U<S>'}, trig=has(g, v))",
+]
+REG.fn(D, "dijkstra", prop="C11", ret="Result[opt[list[U<S>]]]",
+       types={"goal": "opaque", "neighbors": "fun:N", "is_goal": "fun:goalp", "max_cost": "opt[real]",
+              "pi": "map[U<S>,int]", "where": "map[U<S>,int]", "path": "list[U<S>]"},
+       requires=["is_none(max_cost)",  # the certificate below is for searches without a cost limit
+                 "forall(u, i, implies(0 <= i < len(N(u)), N(u)[i][1] >= 0 and N(u)[i][1] < inf()), sorts={'u': 'U<S>'}, trig=N(u)[i])"],
+       ghost_before=[("g: dict[S, float] = {start: 0.0}", "pi", "lam(v, 0, sort='U<S>')"),
+                     ("g: dict[S, float] = {start: 0.0}", "where", "lam(v, 0, sort='U<S>')")],
+       ghost_after=[("parent[neighbor] = current", "pi", "store(pi, neighbor, _k2)"),
+                    # entries move when the heap is re-arranged by a pop; a push puts the node's new entry last
+                    ("cost, _, current = heappop(heap)", "where", "lam(v, _heap_inv[where[v]], sort='U<S>')"),
+                    ("heappush(heap, (tentative_g, counter, neighbor))", "where", "store(where, neighbor, len(heap) - 1)")],
+       ensures=[
+           "implies(result.status != 1, is_none(result.solution))",
+           "implies(result.status == 1, not is_none(result.solution) and len(val(result.solution)) >= 1)",
+           # (1) real path: starts at the source, ends at a goal, each step is an offered edge, labels grow by the edge weight
+           "implies(result.status == 1, val(result.solution)[0] == start and get(g, start) == 0 and goalp(val(result.solution)[len(val(result.solution)) - 1]))",
+           "implies(result.status == 1, result.objective == get(g, val(result.solution)[len(val(result.solution)) - 1]))",
+           "implies(result.status == 1, forall(i, implies(0 <= i < len(val(result.solution)) - 1, 0 <= pi[val(result.solution)[i + 1]] < len(N(val(result.solution)[i])) and N(val(result.solution)[i])[pi[val(result.solution)[i + 1]]][0] == val(result.solution)[i + 1] and get(g, val(result.solution)[i + 1]) == get(g, val(result.solution)[i]) + N(val(result.solution)[i])[pi[val(result.solution)[i + 1]]][1]), trig=val(result.solution)[i]))",
+           # (2) optimality certificate (with paper lemma L3: labels that are relaxed on the closed set and bounded below by c
+           #     elsewhere are a feasible potential, so no walk from the source to any goal is shorter than c = objective):
+           "implies(result.status == 1, forall(u, implies(has(closed, u) and u != current, " + RELAXED.format(u="u") + " and get(g, u) <= result.objective), sorts={'u': 'U<S>'}, trig=has(closed, u)))",
+           "implies(result.status == 1, forall(v, implies(has(g, v) and (not has(closed, v) or v == current), get(g, v) >= result.objective), sorts={'v': 'U<S>'}, trig=has(g, v)))",
+           "implies(result.status == 1, forall(u, implies(has(closed, u) and u != current, not goalp(u)), sorts={'u': 'U<S>'}, trig=has(closed, u)))",
+           # (3) INFEASIBLE certificate: the labelled set contains the source, is closed under offered edges and holds no goal
+           "implies(result.status == 3, has(g, start) and forall(u, implies(has(g, u), has(closed, u) and not goalp(u) and " + RELAXED.format(u="u") + "), sorts={'u': 'U<S>'}, trig=has(g, u)))",
+       ],
+       loops={1: LoopSpec(invariants=DJ + ["forall(u, implies(has(closed, u), " + RELAXED.format(u="u") + "), sorts={'u': 'U<S>'}, trig=has(closed, u))"]),
+              2: LoopSpec(invariants=DJ + [
+                  "has(g, current)", "has(closed, current)", "not goalp(current)",
+                  "forall(u, implies(has(closed, u) and u != current, " + RELAXED.format(u="u") + "), sorts={'u': 'U<S>'}, trig=has(closed, u))",
+                  # the processed prefix of current's edges is relaxed; nothing closed is more expensive than current
+                  "forall(i, implies(0 <= i < _k2, has(g, N(current)[i][0]) and get(g, N(current)[i][0]) <= get(g, current) + N(current)[i][1]), trig=N(current)[i])",
+                  "forall(u, implies(has(closed, u), get(g, u) <= get(g, current)), sorts={'u': 'U<S>'}, trig=has(closed, u))",
+                  "forall(j, implies(0 <= j < len(heap), get(g, current) <= heap[j][0]), trig=heap[j])",
+              ])})
+
+# ------------------------------------------------------------------ astar: same path-validity contract
+A = "solvor/a_star.py"
+REG.callback("heur", ["U<S>"], "real", pure=False)
 DI = [
     "has(g, start)", "get(g, start) == 0", "not has(parent, start)",
     "forall(v, implies(has(g, v), get(g, v) >= 0), sorts={'v': 'U<S>'}, trig=has(g, v))",
-    # every labelled node except the source has a parent; a parent is a closed, labelled node whose offered edge
-    # (ghost weight pw[v]) explains the label exactly
     "forall(v, implies(has(g, v) and v != start, has(parent, v)), sorts={'v': 'U<S>'}, trig=has(g, v))",
     "forall(v, implies(has(parent, v), has(g, v) and has(g, get(parent, v)) and has(closed, get(parent, v)) and Edge(get(parent, v), v, pw[v]) and get(g, v) == get(g, get(parent, v)) + pw[v]), sorts={'v': 'U<S>'}, trig=has(parent, v))",
     "forall(v, implies(has(closed, v), has(g, v)), sorts={'v': 'U<S>'}, trig=has(closed, v))",
     "forall(j, implies(0 <= j < len(heap), has(g, heap[j][2])), trig=heap[j])",
 ]
-REG.fn(D, "dijkstra", prop="C11", ret="Result[opt[list[U<S>]]]",
-       types={"goal": "opaque", "neighbors": "fun:dnbr", "is_goal": "fun:isgoal", "max_cost": "opt[real]",
-              "pw": "map[U<S>,real]", "path": "list[U<S>]"},
-       ghost_before=[("g: dict[S, float] = {start: 0.0}", "pw", "lam(v, 0.0, sort='U<S>')")],
-       ghost_after=[("parent[neighbor] = current", "pw", "store(pw, neighbor, edge_cost)")],
-       ensures=[
-           "implies(result.status != 1, is_none(result.solution))",
-           "implies(result.status == 1, not is_none(result.solution) and len(val(result.solution)) >= 1)",
-           # a returned path starts at the source, every step is an edge offered by `neighbors`, and the labels
-           # grow by exactly the edge weights from 0 to the reported distance (so the weights sum to it)
-           "implies(result.status == 1, val(result.solution)[0] == start and get(g, start) == 0)",
-           "implies(result.status == 1, result.objective == get(g, val(result.solution)[len(val(result.solution)) - 1]))",
-           "implies(result.status == 1, forall(i, implies(0 <= i < len(val(result.solution)) - 1, Edge(val(result.solution)[i], val(result.solution)[i + 1], pw[val(result.solution)[i + 1]]) and get(g, val(result.solution)[i + 1]) == get(g, val(result.solution)[i]) + pw[val(result.solution)[i + 1]]), trig=val(result.solution)[i]))",
-       ],
-       loops={1: LoopSpec(invariants=DI),
-              2: LoopSpec(invariants=DI + ["has(g, current)", "has(closed, current)"])})
-
-# ------------------------------------------------------------------ astar: same path-validity contract
-A = "solvor/a_star.py"
-REG.callback("heur", ["U<S>"], "real", pure=False)
 AI = [x.replace("heap[j][2]", "heap[j][3]") for x in DI]
 REG.fn(A, "astar", prop="C11", ret="Result[opt[list[U<S>]]]",
        types={"goal": "opaque", "neighbors": "fun:dnbr", "heuristic": "fun:heur", "is_goal": "fun:isgoal", "max_cost": "opt[real]",
